@@ -62,7 +62,7 @@ enum Sc {
     DecB { w: usize, p: u8, s: i8 },
     DecF { w: usize, n: usize, p: u8, s: i8 },
     Arr(Box<Sc>), Map(Box<Sc>), Nullable(bool, Box<Sc>), Union(Vec<Sc>), Rec(Vec<Sc>),
-    /// logical types 20..=30 (see D_C17.v)
+    /// logical types 20..=30, and 31 / 32: bytes / string held in BinaryView / Utf8View arrays (see D_C17.v)
     Logical(u8),
 }
 
@@ -109,7 +109,7 @@ fn parse_sc(t: &mut &[BigInt]) -> Sc {
         14 => { let ns = num(t) != 0; Sc::Nullable(ns, Box::new(parse_sc(t))) }
         15 => { let k = num(t); Sc::Union((0..k).map(|_| parse_sc(t)).collect()) }
         16 => { let k = num(t); Sc::Rec((0..k).map(|_| parse_sc(t)).collect()) }
-        20..=30 => Sc::Logical(c as u8),
+        20..=32 => Sc::Logical(c as u8),
         _ => panic!("schema code"),
     }
 }
@@ -117,7 +117,7 @@ fn sc_of(g: &Group) -> Sc { let mut t = &g[..]; parse_sc(&mut t) }
 
 /// physical Avro type of a logical code
 fn physical(c: u8) -> Sc {
-    match c { 20 | 21 => Sc::Int, 22..=26 | 29 | 30 => Sc::Long, 27 => Sc::Str, 28 => Sc::Fixed(12), _ => panic!() }
+    match c { 20 | 21 => Sc::Int, 22..=26 | 29 | 30 => Sc::Long, 27 | 32 => Sc::Str, 28 => Sc::Fixed(12), 31 => Sc::Bytes, _ => panic!() }
 }
 
 fn print_v(sc: &Sc, v: &V, out: &mut Group) {
@@ -226,6 +226,8 @@ fn build(sc: &Sc, dt: &DataType, vals: &[Option<&V>]) -> ArrayRef {
         (_, DataType::Timestamp(TimeUnit::Nanosecond, _)) => prim!(TimestampNanosecondType, |x: i64| x),
         (_, DataType::Float32) => Arc::new(vals.iter().map(|v| v.map(|v| match v { V::F(x) => f32::from_bits(*x as u32), _ => panic!() })).collect::<Float32Array>()),
         (_, DataType::Float64) => Arc::new(vals.iter().map(|v| v.map(|v| match v { V::F(x) => f64::from_bits(*x), _ => panic!() })).collect::<Float64Array>()),
+        (_, DataType::BinaryView) => Arc::new(vals.iter().map(|v| v.map(|v| match v { V::Bytes(b) => &b[..], _ => panic!() })).collect::<BinaryViewArray>()),
+        (_, DataType::Utf8View) => Arc::new(vals.iter().map(|v| v.map(|v| match v { V::Bytes(b) => std::str::from_utf8(b).expect("utf8"), _ => panic!() })).collect::<StringViewArray>()),
         (_, DataType::Binary) => Arc::new(vals.iter().map(|v| v.map(|v| match v { V::Bytes(b) => &b[..], _ => panic!() })).collect::<BinaryArray>()),
         (_, DataType::Utf8) => Arc::new(vals.iter().map(|v| v.map(|v| match v { V::Bytes(b) => std::str::from_utf8(b).expect("utf8"), _ => panic!() })).collect::<StringArray>()),
         (Sc::Logical(27), DataType::FixedSizeBinary(16)) => {
@@ -278,13 +280,16 @@ fn build(sc: &Sc, dt: &DataType, vals: &[Option<&V>]) -> ArrayRef {
         (Sc::Rec(fs), DataType::Struct(afs)) => {
             assert_eq!(fs.len(), afs.len());
             let defaults: Vec<V> = fs.iter().map(default_v).collect();
-            let cols: Vec<ArrayRef> = fs.iter().enumerate().map(|(i, f)| {
+            // Arrow child j is the record field named by it ("f<i>"): the Arrow struct may list its children in
+            // another order than the Avro record / the value tree
+            let cols: Vec<ArrayRef> = afs.iter().map(|af| {
+                let i: usize = af.name()[1..].parse().expect("field name f<i>"); let f = &fs[i];
                 let cv: Vec<Option<&V>> = vals.iter().map(|v| match v {
                     Some(V::Rec(l)) => Some(&l[i]),
                     // a null struct slot: children hold nulls where they can, defaults otherwise
-                    None => if afs[i].is_nullable() || matches!(f, Sc::Nullable(..)) { None } else { Some(&defaults[i]) },
+                    None => if af.is_nullable() || matches!(f, Sc::Nullable(..)) { None } else { Some(&defaults[i]) },
                     _ => panic!() }).collect();
-                build(f, afs[i].data_type(), &cv)
+                build(f, af.data_type(), &cv)
             }).collect();
             Arc::new(StructArray::try_new_with_length(afs.clone(), cols, nulls_of(vals), vals.len()).unwrap())
         }
@@ -328,6 +333,8 @@ fn extract(sc: &Sc, arr: &dyn Array, i: usize) -> Result<V, String> {
         (Sc::Float, DataType::Float32) => V::F(arr.as_primitive::<Float32Type>().value(i).to_bits() as u64),
         (Sc::Double, DataType::Float64) => V::F(arr.as_primitive::<Float64Type>().value(i).to_bits()),
         (Sc::Bytes, DataType::Binary) => V::Bytes(arr.as_binary::<i32>().value(i).to_vec()),
+        (Sc::Logical(31), DataType::BinaryView) => V::Bytes(arr.as_binary_view().value(i).to_vec()),
+        (Sc::Logical(32), DataType::Utf8View) => V::Bytes(arr.as_string_view().value(i).as_bytes().to_vec()),
         (Sc::Str, DataType::Utf8) => V::Bytes(arr.as_string::<i32>().value(i).as_bytes().to_vec()),
         (Sc::Logical(27), DataType::FixedSizeBinary(16)) => V::Bytes(uuid_text(arr.as_fixed_size_binary().value(i))),
         (Sc::Fixed(n), DataType::FixedSizeBinary(m)) if *n == *m as usize => V::Bytes(arr.as_fixed_size_binary().value(i).to_vec()),
@@ -456,7 +463,28 @@ struct AvroCtx { json: String, arrow: SchemaRef, fp: Fingerprint }
 
 /// The Avro JSON schema of the tree and the Arrow schema the real reader maps it to (with the JSON attached
 /// as `avro.schema` metadata when `explicit`, so that the writer encodes with exactly that schema).
-fn avro_ctx(sc: &Sc, explicit: bool) -> Result<AvroCtx, String> {
+/// Reorders the children of every *nested* Struct (reversed, or rotated by one) - the writer binds the fields of
+/// a user supplied Avro record to the Arrow children by name, so the batch may list them in any order.
+fn permute_nested(dt: &DataType, mode: i64) -> DataType {
+    let pf = |f: &FieldRef| -> FieldRef { Arc::new(f.as_ref().clone().with_data_type(permute_nested(f.data_type(), mode))) };
+    match dt {
+        DataType::Struct(fs) => {
+            let mut v: Vec<FieldRef> = fs.iter().map(pf).collect();
+            if mode == 1 { v.reverse() } else if !v.is_empty() { v.rotate_left(1) }
+            DataType::Struct(v.into())
+        }
+        DataType::List(f) => DataType::List(pf(f)),
+        DataType::Map(ef, o) => { // the entries struct keeps (key, value); only the value type is visited
+            let DataType::Struct(efs) = ef.data_type() else { panic!() };
+            let entries = DataType::Struct(vec![efs[0].clone(), pf(&efs[1])].into());
+            DataType::Map(Arc::new(ef.as_ref().clone().with_data_type(entries)), *o)
+        }
+        DataType::Union(ufs, m) => DataType::Union(ufs.iter().map(|(id, f)| (id, pf(f))).collect(), *m),
+        o => o.clone(),
+    }
+}
+fn avro_ctx(sc: &Sc, explicit: bool) -> Result<AvroCtx, String> { avro_ctx_perm(sc, explicit, 0) }
+fn avro_ctx_perm(sc: &Sc, explicit: bool, perm: i64) -> Result<AvroCtx, String> {
     let mut names = 0;
     let json = avro_json(sc, &mut names).to_string();
     let mut store = SchemaStore::new();
@@ -465,7 +493,12 @@ fn avro_ctx(sc: &Sc, explicit: bool) -> Result<AvroCtx, String> {
     let rs = dec.schema();
     let mut md = HashMap::new();
     if explicit { md.insert(SCHEMA_METADATA_KEY.to_string(), json.clone()); }
-    let arrow = Arc::new(Schema::new_with_metadata(rs.fields().clone(), md));
+    // top-level columns keep their order; nested structs are reordered when asked for (explicit schema only)
+    let fields: Vec<FieldRef> = if perm != 0 && explicit {
+        rs.fields().iter().map(|f| { let dt = match f.data_type() { DataType::Struct(_) => permute_nested(f.data_type(), perm), o => permute_nested(o, perm) };
+                                      Arc::new(f.as_ref().clone().with_data_type(dt)) as FieldRef }).collect()
+    } else { rs.fields().iter().cloned().collect() };
+    let arrow = Arc::new(Schema::new_with_metadata(fields, md));
     Ok(AvroCtx { json, arrow, fp })
 }
 
@@ -545,7 +578,7 @@ fn run_avro(op: &str, a: &Args) -> Args {
         // [schema][fmt: 0 raw binary rows (Encoder), 1 single-object rows (Encoder), 2 single-object stream (Writer); slicing mode] rows -> datum bytes per row
         "c17.avro_write" => {
             let rows = rows_in(&sc, a);
-            let ctx = match avro_ctx(&sc, true) { Ok(c) => c, Err(e) => { fail(0, "ctx", &e); return skip() } };
+            let ctx = match avro_ctx_perm(&sc, true, o.get(2).copied().unwrap_or(0)) { Ok(c) => c, Err(e) => { fail(0, "ctx", &e); return skip() } };
             let batches = sliced_batches(&sc, &ctx.arrow, &rows, o[1] as usize);
             let mut out: Args = Vec::new();
             let strip = |row: &[u8], out: &mut Args| -> bool {
@@ -597,7 +630,7 @@ fn run_avro(op: &str, a: &Args) -> Args {
         "c17.avro_rt" => {
             let rows = rows_in(&sc, a);
             let explicit = o[3] != 0;
-            let ctx = match avro_ctx(&sc, explicit) { Ok(c) => c, Err(e) => { fail(0, "ctx", &e); return skip() } };
+            let ctx = match avro_ctx_perm(&sc, explicit, o.get(5).copied().unwrap_or(0)) { Ok(c) => c, Err(e) => { fail(0, "ctx", &e); return skip() } };
             let batches = sliced_batches(&sc, &ctx.arrow, &rows, o[2] as usize);
             let mut got: Vec<V> = Vec::new();
             if o[0] == 0 {
@@ -665,6 +698,8 @@ fn arrow_dt(sc: &Sc) -> DataType {
         Sc::Logical(26) => DataType::Timestamp(TimeUnit::Microsecond, None),
         Sc::Logical(29) => DataType::Timestamp(TimeUnit::Nanosecond, Some("+00:00".into())),
         Sc::Logical(30) => DataType::Timestamp(TimeUnit::Nanosecond, None),
+        Sc::Logical(31) => DataType::BinaryView,
+        Sc::Logical(32) => DataType::Utf8View,
         _ => panic!("no Arrow type for {sc:?} in this format"),
     }
 }
@@ -961,7 +996,8 @@ fn gen_leaf(r: &mut Rng, fmt: Fmt) -> Sc {
             8 => Sc::Fixed(1 + r.below(9)), 9 => Sc::Enum(1 + r.below(5)), _ => gen_dec(r, fmt),
         },
         Fmt::Json => match r.below(16) {
-            0 => Sc::Bool, 1 => Sc::Int, 2 => Sc::Long, 3 => Sc::Float, 4 => Sc::Double, 5 => Sc::Bytes, 6 | 7 | 8 => Sc::Str,
+            0 => Sc::Bool, 1 => Sc::Int, 2 => Sc::Long, 3 => Sc::Float, 4 => Sc::Double, 5 => Sc::Bytes, 6 | 7 => Sc::Str,
+            8 => Sc::Logical(if r.chance(2, 3) { 31 } else { 32 }),      // BinaryView (own hex encoder of the writer) / Utf8View
             9 => gen_dec(r, fmt), 10 => Sc::Fixed(1 + r.below(6)),
             _ => Sc::Logical(*r.pick(&[20u8, 21, 22, 23, 24, 25, 26, 29, 30])),
         },
@@ -1113,6 +1149,10 @@ fn gen_v(r: &mut Rng, sc: &Sc, fmt: Fmt, key_ok: &dyn Fn(&[u8]) -> bool) -> V {
             23 | 25 => V::I(if text { pick_i64(r, -62_135_596_800_000, 253_402_300_799_999) } else { pick_i64(r, i64::MIN, i64::MAX) }),
             24 | 26 => V::I(if text { pick_i64(r, -62_135_596_800_000_000, 253_402_300_799_999_999) } else { pick_i64(r, i64::MIN, i64::MAX) }),
             29 | 30 => V::I(if text { pick_i64(r, -(1i64 << 62), 1i64 << 62) } else { pick_i64(r, i64::MIN, i64::MAX) }),
+            31 => { // small integers / control bytes / zero padding as well as random bytes
+                let n = match r.below(6) { 0 => 0, 1 => 1, 2 => 13, _ => 1 + r.below(9) };
+                V::Bytes((0..n).map(|_| match r.below(4) { 0 => r.below(16) as u8, 1 => 0, _ => r.next() as u8 }).collect()) }
+            32 => loop { let s = gen_string(r, 40); if key_ok(&s) { return V::Bytes(s) } },
             27 => { let b = match r.below(3) { 0 => vec![0u8; 16], 1 => vec![0xFF; 16], _ => r.bytes(16) }; V::Bytes(uuid_text(&b)) }
             28 => { // months / days below 2^31 (the Arrow interval fields are signed), any u32 of milliseconds
                 let mut b = Vec::new();
@@ -1295,8 +1335,11 @@ pub fn generate(tier: &str, r: &mut Rng, emit: &mut dyn FnMut(Case)) {
         if KF_AVRO_OCF_SCHEMA && container == 0 && contains_kind(&sc, &|s| matches!(s, Sc::Nullable(true, _) | Sc::DecB { .. } | Sc::DecF { .. })) { explicit = 0 }
         let mut batch = *r.pick(&[1i64, 2, 3, 8, 1024]);
         if KF_AVRO_UNION_BATCH && contains_kind(&sc, &|s| matches!(s, Sc::Union(_))) { batch = 1024 }
-        let tag = format!("avro_rt:{}:c{codec}:s{slicing}:e{explicit}:{}", if container == 0 { "ocf" } else { "soe" }, heads(&sc));
-        emit(Case::new("c17.avro_rt", case_rows(&sc, gs(&[container, codec, slicing, explicit, batch]), &rows), &["c17.avro_rt.spec"], tag));
+        // nested Arrow structs in another child order than the user's Avro records (bound by name); not for container
+        // files, whose header is regenerated from the Arrow schema (KF_AVRO_OCF_SCHEMA)
+        let perm = if explicit == 1 && container == 1 && contains_kind(&sc, &|s| matches!(s, Sc::Rec(fs) if fs.len() > 1)) { r.below(3) as i64 } else { 0 };
+        let tag = format!("avro_rt:{}:c{codec}:s{slicing}:e{explicit}:p{perm}:{}", if container == 0 { "ocf" } else { "soe" }, heads(&sc));
+        emit(Case::new("c17.avro_rt", case_rows(&sc, gs(&[container, codec, slicing, explicit, batch, perm]), &rows), &["c17.avro_rt.spec"], tag));
     }
     // ---------------------------------------------------------------- Avro: writer bytes = model encoder
     for i in 0..500 * scale {
@@ -1304,7 +1347,8 @@ pub fn generate(tier: &str, r: &mut Rng, emit: &mut dyn FnMut(Case)) {
         let n = n_rows(r, "quick").min(9);
         let rows: Vec<V> = (0..n).map(|_| gen_v(r, &sc, Fmt::Avro, &any)).collect();
         let fmt = (i % 3) as i64; let slicing = r.below(3) as i64;
-        emit(Case::new("c17.avro_write", case_rows(&sc, gs(&[fmt, slicing]), &rows), &["c17.avro_write"], format!("avro_write:f{fmt}:s{slicing}:{}", heads(&sc))));
+        let perm = r.below(3) as i64;
+        emit(Case::new("c17.avro_write", case_rows(&sc, gs(&[fmt, slicing, perm]), &rows), &["c17.avro_write"], format!("avro_write:f{fmt}:s{slicing}:p{perm}:{}", heads(&sc))));
     }
     // ---------------------------------------------------------------- Avro: block forms read by the real reader and by the model
     for _ in 0..500 * scale {
